@@ -493,6 +493,346 @@ fn known_zone(cache: &mut std::collections::HashMap<String, bool>, name: &str) -
   ok
 }
 
+// ---------------------------------------------------------------------------------------------
+// The written grammar of the five literal forms (specification side, written from the property text and
+// the lexical forms of XML Schema part 2 it refers to - not from the code, which uses regular expressions
+// of the `regex` crate; no regular expression here). Only ASCII: digits are '0'…'9', the signs are
+// '-' '+' ':' '.' '@' 'T' 'Z' 'z' 'P' 'Y' 'M' 'D' 'H' 'S'. Every text that is not in the grammar,
+// or is in it but names an impossible date, hour 24, minute / second 60 and above, an offset of more
+// than 14 hours (or with minutes / seconds above 59), an unknown zone or a duration beyond the
+// representable maximum, denotes nothing: null.
+
+fn two_digits(cs: &[char], i: usize) -> Option<i64> {
+  if i + 2 <= cs.len() && cs[i].is_ascii_digit() && cs[i + 1].is_ascii_digit() {
+    Some((cs[i] as i64 - 48) * 10 + (cs[i + 1] as i64 - 48))
+  } else {
+    None
+  }
+}
+
+fn digit_run(cs: &[char], i: usize) -> usize {
+  let mut j = i;
+  while j < cs.len() && cs[j].is_ascii_digit() {
+    j += 1;
+  }
+  j
+}
+
+fn run_value(cs: &[char], i: usize, j: usize) -> Option<u128> {
+  // value of the digits cs[i..j]; None when it does not fit 128 bits (far beyond every limit)
+  let mut v: u128 = 0;
+  for c in &cs[i..j] {
+    v = v.checked_mul(10)?.checked_add((*c as u128) - 48)?;
+  }
+  Some(v)
+}
+
+/// `[-]YYYY[YYYYY]-MM-DD` at the start of `cs`: the written fields and where the date ends.
+fn g_date(cs: &[char]) -> Option<((i64, i64, i64), usize)> {
+  let neg = cs.first() == Some(&'-');
+  let i = if neg { 1 } else { 0 };
+  let j = digit_run(cs, i);
+  let n = j - i;
+  if !(4..=9).contains(&n) || (n > 4 && cs[i] == '0') {
+    return None;
+  }
+  let y = run_value(cs, i, j)? as i64;
+  if cs.get(j) != Some(&'-') {
+    return None;
+  }
+  let m = two_digits(cs, j + 1)?;
+  if cs.get(j + 3) != Some(&'-') {
+    return None;
+  }
+  let d = two_digits(cs, j + 4)?;
+  Some(((if neg { -y } else { y }, m, d), j + 6))
+}
+
+fn calendar_date(y: i64, m: i64, d: i64) -> bool {
+  (1..=12).contains(&m) && d >= 1 && d <= dim(y, m)
+}
+
+/// `hh:mm:ss[.f+][Z|z|(+|-)hh:mm[:ss]|@name]`, the whole of `cs`: `(h mi s ns zone)` as an observation.
+fn g_time(cs: &[char], zone_known: bool) -> Option<String> {
+  let h = two_digits(cs, 0)?;
+  if cs.get(2) != Some(&':') {
+    return None;
+  }
+  let mi = two_digits(cs, 3)?;
+  if cs.get(5) != Some(&':') {
+    return None;
+  }
+  let s = two_digits(cs, 6)?;
+  let mut i = 8;
+  let mut ns: u64 = 0;
+  if cs.get(i) == Some(&'.') {
+    let j = digit_run(cs, i + 1);
+    if j == i + 1 {
+      return None;
+    }
+    let digits: String = cs[i + 1..j].iter().collect();
+    ns = frac_ns(&digits);
+    i = j;
+  }
+  let rest = &cs[i..];
+  let zone = if rest.is_empty() {
+    "local".to_string()
+  } else if rest == ['Z'] || rest == ['z'] {
+    "utc".to_string()
+  } else if rest[0] == '@' {
+    let name = &rest[1..];
+    if name.is_empty() || !name.iter().all(|c| c.is_ascii_alphanumeric() || "_/+-".contains(*c)) || !zone_known {
+      return None;
+    }
+    format!("(zone {})", Sexp::str(&name.iter().collect::<String>()))
+  } else if rest[0] == '+' || rest[0] == '-' {
+    let hh = two_digits(rest, 1)?;
+    if rest.get(3) != Some(&':') {
+      return None;
+    }
+    let mm = two_digits(rest, 4)?;
+    let ss = if rest.len() == 6 {
+      0
+    } else if rest.len() == 9 && rest[6] == ':' {
+      two_digits(rest, 7)?
+    } else {
+      return None;
+    };
+    if hh > 14 || mm > 59 || ss > 59 {
+      return None;
+    }
+    let o = 3600 * hh + 60 * mm + ss;
+    if o == 0 {
+      "utc".to_string()
+    } else {
+      format!("(offset {})", if rest[0] == '-' { -o } else { o })
+    }
+  } else {
+    return None;
+  };
+  if h > 23 || mi > 59 || s > 59 {
+    return None;
+  }
+  Some(format!("{} {} {} {} {}", h, mi, s, ns, zone))
+}
+
+/// `[-]P[nY][nM]`: months, `Err(())` when the text is in the grammar but beyond i64 months.
+fn g_ym(cs: &[char]) -> Option<Result<i128, ()>> {
+  let neg = cs.first() == Some(&'-');
+  let mut i = if neg { 1 } else { 0 };
+  if cs.get(i) != Some(&'P') {
+    return None;
+  }
+  i += 1;
+  let mut total: Option<i128> = Some(0);
+  let mut any = false;
+  for x in ['Y', 'M'] {
+    let j = digit_run(cs, i);
+    if j > i && cs.get(j) == Some(&x) {
+      any = true;
+      let v = run_value(cs, i, j).filter(|v| *v <= i64::MAX as u128).map(|v| v as i128 * if x == 'Y' { 12 } else { 1 });
+      total = match (total, v) {
+        (Some(t), Some(v)) if t + v <= i64::MAX as i128 => Some(t + v),
+        _ => None,
+      };
+      i = j + 1;
+    }
+  }
+  if i != cs.len() || !any {
+    return None;
+  }
+  Some(match total {
+    Some(t) => Ok(if neg { -t } else { t }),
+    None => Err(()),
+  })
+}
+
+/// `[-]P[nD][T[nH][nM][n[.f+]S]]` with at least one component and at least one after a `T`:
+/// nanoseconds, `Err(())` when a component does not fit 64 bits.
+fn g_dtd(cs: &[char]) -> Option<Result<i128, ()>> {
+  let neg = cs.first() == Some(&'-');
+  let mut i = if neg { 1 } else { 0 };
+  if cs.get(i) != Some(&'P') {
+    return None;
+  }
+  i += 1;
+  let mut total: Option<i128> = Some(0);
+  let mut any = false;
+  let mut comp = |i: &mut usize, x: char, unit: i128, total: &mut Option<i128>| -> bool {
+    let j = digit_run(cs, *i);
+    if j > *i && cs.get(j) == Some(&x) {
+      let v = run_value(cs, *i, j).filter(|v| *v <= u64::MAX as u128).map(|v| v as i128 * unit);
+      *total = match (*total, v) {
+        (Some(t), Some(v)) => Some(t + v),
+        _ => None,
+      };
+      *i = j + 1;
+      true
+    } else {
+      false
+    }
+  };
+  any |= comp(&mut i, 'D', 86_400_000_000_000, &mut total);
+  if cs.get(i) == Some(&'T') {
+    i += 1;
+    let mut any_t = false;
+    any_t |= comp(&mut i, 'H', 3_600_000_000_000, &mut total);
+    any_t |= comp(&mut i, 'M', 60_000_000_000, &mut total);
+    // seconds with an optional fraction of at least one digit
+    let j = digit_run(cs, i);
+    if j > i {
+      if cs.get(j) == Some(&'S') {
+        any_t |= comp(&mut i, 'S', 1_000_000_000, &mut total);
+      } else if cs.get(j) == Some(&'.') {
+        let k = digit_run(cs, j + 1);
+        if k > j + 1 && cs.get(k) == Some(&'S') {
+          let v = run_value(cs, i, j).filter(|v| *v <= u64::MAX as u128).map(|v| v as i128 * 1_000_000_000);
+          let digits: String = cs[j + 1..k].iter().collect();
+          total = match (total, v) {
+            (Some(t), Some(v)) => Some(t + v + frac_ns(&digits) as i128),
+            _ => None,
+          };
+          i = k + 1;
+          any_t = true;
+        }
+      }
+    }
+    if !any_t {
+      return None;
+    }
+    any = true;
+  }
+  if i != cs.len() || !any {
+    return None;
+  }
+  Some(match total {
+    Some(t) => Ok(if neg { -t } else { t }),
+    None => Err(()),
+  })
+}
+
+/// What the text denotes when given to `date()` / `time()` / `date and time()` / `duration()` / `@"…"`
+/// (kinds `date time dt dur at`; `xdt`: the xsd:dateTime form alone), as an observation; `null` when it
+/// denotes nothing.
+fn spec_lit(kind: &str, text: &str, zone_known: bool) -> String {
+  let cs: Vec<char> = text.chars().collect();
+  let date = || -> Option<String> {
+    let ((y, m, d), end) = g_date(&cs)?;
+    if end == cs.len() && calendar_date(y, m, d) {
+      Some(format!("(date {} {} {})", y, m, d))
+    } else {
+      None
+    }
+  };
+  let dt = || -> Option<String> {
+    let ((y, m, d), end) = g_date(&cs)?;
+    if cs.get(end) != Some(&'T') || !calendar_date(y, m, d) {
+      return None;
+    }
+    let t = g_time(&cs[end + 1..], zone_known)?;
+    Some(format!("(dt {} {} {} {})", y, m, d, t))
+  };
+  let time = || -> Option<String> { g_time(&cs, zone_known).map(|t| format!("(time {})", t)) };
+  let dur = || -> Option<String> {
+    match g_ym(&cs) {
+      Some(Ok(n)) => Some(format!("(ymd {})", n)),
+      Some(Err(())) => None,
+      None => match g_dtd(&cs) {
+        Some(Ok(n)) => Some(format!("(dtd {})", n)),
+        _ => None,
+      },
+    }
+  };
+  let v = match kind {
+    "date" => date(),
+    "time" => time(),
+    "xdt" => dt(),
+    "dt" => dt().or_else(|| date().map(|d| format!("(dt {} 0 0 0 0 local)", &d[6..d.len() - 1]))),
+    "dur" => dur(),
+    _ => date().or_else(dt).or_else(time).or_else(dur),
+  };
+  v.unwrap_or_else(|| "null".to_string())
+}
+
+/// The replacements of family `foreign`: for an ASCII character of a literal, characters of other scripts
+/// (or other Unicode blocks) that look like it or mean the same.
+fn foreign_replacements(c: char) -> Vec<(char, &'static str)> {
+  let mut out: Vec<(char, &'static str)> = vec![];
+  if c.is_ascii_digit() {
+    let d = c as u32 - 48;
+    // decimal digits (general category Nd) of other scripts
+    for base in [
+      0x0660u32, 0x06F0, 0x07C0, 0x0966, 0x09E6, 0x0A66, 0x0AE6, 0x0B66, 0x0BE6, 0x0C66, 0x0CE6, 0x0D66, 0x0DE6, 0x0E50, 0x0ED0, 0x0F20, 0x1040, 0x1090, 0x17E0,
+      0x1810, 0x1946, 0x19D0, 0x1A80, 0x1B50, 0x1BB0, 0x1C40, 0x1C50, 0xA620, 0xA8D0, 0xA900, 0xA9D0, 0xAA50, 0xABF0, 0xFF10, 0x104A0, 0x11066, 0x1D7CE, 0x1D7D8,
+      0x1D7E2, 0x1D7EC, 0x1D7F6, 0x1E950,
+    ] {
+      if let Some(ch) = char::from_u32(base + d) {
+        out.push((ch, "digit"));
+      }
+    }
+    // digit-like characters that are not decimal digits: superscripts, subscripts, circled, parenthesised, full stop
+    let sup = [0x2070u32, 0x00B9, 0x00B2, 0x00B3, 0x2074, 0x2075, 0x2076, 0x2077, 0x2078, 0x2079][d as usize];
+    for cp in [sup, 0x2080 + d, if d == 0 { 0x24EA } else { 0x2460 + d - 1 }, if d == 0 { 0x3007 } else { 0x2474 + d - 1 }, if d == 0 { 0x1F100 } else { 0x2488 + d - 1 }] {
+      if let Some(ch) = char::from_u32(cp) {
+        out.push((ch, "digit-like"));
+      }
+    }
+    return out;
+  }
+  let table: &[(char, &[u32])] = &[
+    ('-', &[0x2212, 0x2010, 0x2011, 0x2012, 0x2013, 0x2014, 0xFE63, 0xFF0D, 0x00AD, 0x058A, 0x2043, 0x02D7]),
+    ('+', &[0xFF0B, 0xFE62, 0x207A, 0x208A, 0x2795, 0x02D6]),
+    (':', &[0xFF1A, 0xA789, 0x2236, 0xFE55, 0x02D0, 0x0589, 0x1361, 0xFE13]),
+    ('.', &[0xFF0E, 0x2024, 0x00B7, 0x3002, 0xFE52, 0x0701, 0x06D4, 0x2E3C]),
+    ('@', &[0xFF20, 0xFE6B]),
+    ('/', &[0x2215, 0xFF0F, 0x2044, 0x29F8]),
+    ('_', &[0xFF3F, 0x203F, 0xFE4D]),
+  ];
+  for (a, cps) in table {
+    if *a == c {
+      for cp in cps.iter() {
+        if let Some(ch) = char::from_u32(*cp) {
+          out.push((ch, "sign"));
+        }
+      }
+      return out;
+    }
+  }
+  if c.is_ascii_alphabetic() {
+    // full-width and mathematical letters, and letters of other scripts with the same shape (or the same
+    // upper / lower case partner: the Kelvin sign, the long s, the dotless i)
+    let idx = if c.is_ascii_uppercase() { c as u32 - 'A' as u32 } else { c as u32 - 'a' as u32 };
+    let fw = if c.is_ascii_uppercase() { 0xFF21 + idx } else { 0xFF41 + idx };
+    let mb = if c.is_ascii_uppercase() { 0x1D400 + idx } else { 0x1D41A + idx };
+    let ms = if c.is_ascii_uppercase() { 0x1D670 + idx } else { 0x1D68A + idx };
+    for cp in [fw, mb, ms] {
+      if let Some(ch) = char::from_u32(cp) {
+        out.push((ch, "letter"));
+      }
+    }
+    let look: &[(char, &[u32])] = &[
+      ('T', &[0x0422, 0x03A4, 0x13A2]), ('Z', &[0x0396, 0x2124, 0x13C3]), ('z', &[0x1D22, 0x0290]), ('P', &[0x0420, 0x03A1, 0x2119]), ('Y', &[0x03A5, 0x04AE]),
+      ('M', &[0x041C, 0x039C, 0x216F]), ('D', &[0x216E, 0x13A0]), ('H', &[0x041D, 0x0397, 0x210D]), ('S', &[0x0405, 0x13DA]), ('s', &[0x017F, 0x0455]),
+      ('a', &[0x0430, 0x0251]), ('e', &[0x0435, 0x212F]), ('o', &[0x043E, 0x03BF]), ('k', &[0x212A, 0x043A]), ('K', &[0x212A, 0x039A]), ('i', &[0x0131, 0x0456]),
+      ('E', &[0x0415, 0x0395]), ('A', &[0x0410, 0x0391]), ('W', &[0x051C]), ('r', &[0x0433]), ('u', &[0x03C5]), ('p', &[0x0440]), ('w', &[0x051D]), ('y', &[0x0443]),
+      ('t', &[0x03C4]), ('c', &[0x0441]), ('G', &[0x050C]), ('C', &[0x0421]),
+    ];
+    for (a, cps) in look {
+      if *a == c {
+        for cp in cps.iter() {
+          if let Some(ch) = char::from_u32(*cp) {
+            out.push((ch, "letter"));
+          }
+        }
+      }
+    }
+  }
+  out
+}
+
+/// Characters without any width or meaning in a number, inserted between two characters of a literal.
+const FOREIGN_INSERTIONS: [u32; 12] = [0x200B, 0x00A0, 0xFEFF, 0x200E, 0x0301, 0x3000, 0x2060, 0x200D, 0x00AD, 0x2009, 0x180E, 0xE0030];
+
 fn gen_cases(rng: &mut Rng, thorough: bool) -> Vec<Case> {
   let mut cs: Vec<Case> = vec![];
   let scale = if thorough { 8 } else { 1 };
@@ -756,8 +1096,9 @@ fn gen_cases(rng: &mut Rng, thorough: bool) -> Vec<Case> {
     cs.push(Case { kind: "dur", text: lit.to_string(), expected: None, sig: "", family: "corpus" });
     cs.push(Case { kind: "at", text: lit.to_string(), expected: None, sig: "", family: "corpus" });
   }
-  let alphabet: Vec<char> = "09:-+.TZPx @/".chars().collect();
-  let alphabet2: Vec<char> = "15zYMDHSt_\u{661}".chars().collect();
+  // `+`, `-`, `e`, `_` and `.`: what the number parsers of the standard library accept beyond digits
+  let alphabet: Vec<char> = "09:-+.TZPx @/e_".chars().collect();
+  let alphabet2: Vec<char> = "15zYMDHStE,\u{661}".chars().collect();
   for (kind, lit) in &corpus {
     let chars: Vec<char> = lit.chars().collect();
     cs.push(Case { kind, text: lit.to_string(), expected: None, sig: "", family: "corpus" });
@@ -784,6 +1125,67 @@ fn gen_cases(rng: &mut Rng, thorough: bool) -> Vec<Case> {
           v.swap(i, i + 1);
           cs.push(Case { kind, text: v.iter().collect(), expected: None, sig: "", family: "corrupt:swap" });
         }
+      }
+    }
+  }
+  // ---- G. family `foreign`: every character of every literal form replaced by characters of other scripts
+  // (decimal digits of forty scripts, digit-like characters, other dashes / pluses / colons / full stops /
+  // commercial ats / slashes, full-width, mathematical and look-alike letters), and invisible characters
+  // inserted at every position: such text is not a literal - null (written out: the grammar is ASCII)
+  let foreign_corpus: Vec<(&'static str, &'static str)> = vec![
+    ("date", "2021-02-28"), ("date", "-1000-12-31"), ("date", "999999999-01-01"), ("date", "0456-07-19"),
+    ("time", "10:20:30"), ("time", "23:59:59.999999999Z"), ("time", "00:00:00.5+01:30"), ("time", "10:00:00-14:59:59"), ("time", "12:00:00@Europe/Warsaw"),
+    ("time", "12:00:00z"), ("time", "10:20:30.125"), ("time", "08:15:47.6@Etc/GMT+1"), ("time", "16:37:09+05:00"), ("time", "04:05:06.0789-00:30"),
+    ("dt", "2021-02-28T10:20:30"), ("dt", "2021-02-28T10:20:30.125-05:00"), ("dt", "-2021-02-28T23:59:59Z"), ("dt", "2021-06-01T12:00:00@Asia/Tokyo"),
+    ("dt", "2020-09-28T16:37:09.123Z"), ("dt", "2021-02-28T10:20:30+05:30:15"), ("dt", "2021-02-28"), ("dt", "1999-12-31T23:59:59.5@America/Port-au-Prince"),
+    ("dur", "P1D"), ("dur", "-P1DT2H3M4.5S"), ("dur", "PT36H"), ("dur", "PT0.000000001S"), ("dur", "P1Y2M"), ("dur", "-P14M"), ("dur", "P10Y"), ("dur", "PT1M"),
+    ("dur", "P12DT10H"), ("dur", "PT90S"), ("dur", "P3DT4M"),
+    ("at", "2021-02-28"), ("at", "10:20:30Z"), ("at", "2021-02-28T10:20:30+01:00"), ("at", "P1Y2M"), ("at", "P1DT1H"), ("at", "10:20:30.5-05:00"), ("at", "-PT0.25S"),
+  ];
+  let fsig = "C14 text with a character outside ASCII (a digit, sign or letter of another script) is accepted as a literal";
+  for (li, (kind, lit)) in foreign_corpus.iter().enumerate() {
+    let chars: Vec<char> = lit.chars().collect();
+    for i in 0..chars.len() {
+      let reps = foreign_replacements(chars[i]);
+      for (k, (r, class)) in reps.iter().enumerate() {
+        // quick tier: every digit position gets every third script (all scripts over three neighbouring
+        // positions), and the Arabic-Indic, Devanagari, full-width and mathematical digits everywhere
+        if !thorough && *class == "digit" && (k + i + li) % 3 != 0 && ![0usize, 3, 33, 36].contains(&k) {
+          continue;
+        }
+        let mut v = chars.clone();
+        v[i] = *r;
+        cs.push(Case {
+          kind,
+          text: v.iter().collect(),
+          expected: Some("null".into()),
+          sig: fsig,
+          family: match *class {
+            "digit" => "foreign:digit of another script",
+            "digit-like" => "foreign:digit-like character",
+            "sign" => "foreign:sign",
+            _ => "foreign:letter",
+          },
+        });
+      }
+    }
+    for i in 0..=chars.len() {
+      for (k, cp) in FOREIGN_INSERTIONS.iter().enumerate() {
+        if !thorough && (k + i) % 2 != 0 {
+          continue;
+        }
+        if let Some(ch) = char::from_u32(*cp) {
+          let mut v = chars.clone();
+          v.insert(i, ch);
+          cs.push(Case { kind, text: v.iter().collect(), expected: Some("null".into()), sig: fsig, family: "foreign:invisible character inserted" });
+        }
+      }
+    }
+    // all digits of the literal in one other script at once
+    for base in [0x0660u32, 0x0966, 0xFF10, 0x1D7CE] {
+      let v: String = chars.iter().map(|c| if c.is_ascii_digit() { char::from_u32(base + (*c as u32 - 48)).unwrap_or(*c) } else { *c }).collect();
+      if v != *lit {
+        cs.push(Case { kind, text: v, expected: Some("null".into()), sig: fsig, family: "foreign:digit of another script" });
       }
     }
   }
@@ -1143,6 +1545,8 @@ fn run_inner(cfg: &Cfg) -> Report {
     s: String,
     v2: String,
     known: bool,
+    /// the same text through the named parameter `from:` (families of malformed text only)
+    named: Option<String>,
   }
   let mut obs: Vec<Obs> = Vec::with_capacity(cases.len());
   for c in &cases {
@@ -1150,28 +1554,33 @@ fn run_inner(cfg: &Cfg) -> Report {
       Some(i) => known_zone(&mut zone_cache, &c.text[i + 1..]),
       None => true,
     };
+    let named = if c.kind != "at" && (c.family.starts_with("corrupt") || c.family.starts_with("foreign") || c.family == "invalid" || c.family == "corpus") {
+      Some(norm(&feel(&format!("{}(from: \"{}\")", fn_of(c.kind), c.text))))
+    } else {
+      None
+    };
     let o = if c.kind == "at" {
       let r = feel_list(&format!("{{v: @\"{}\", r: [v, string(v)]}}.r", c.text));
       if r.len() == 2 {
-        Obs { v: norm(&r[0]), s: r[1].clone(), v2: String::new(), known }
+        Obs { v: norm(&r[0]), s: r[1].clone(), v2: String::new(), known, named }
       } else {
-        Obs { v: norm(&r[0]), s: "null".into(), v2: String::new(), known }
+        Obs { v: norm(&r[0]), s: "null".into(), v2: String::new(), known, named }
       }
     } else {
       let f = fn_of(c.kind);
       let r = feel_list(&format!("{{v: {}(\"{}\"), s: string(v), r: [v, s, {}(s)]}}.r", f, c.text, f));
       if r.len() == 3 {
-        Obs { v: norm(&r[0]), s: r[1].clone(), v2: norm(&r[2]), known }
+        Obs { v: norm(&r[0]), s: r[1].clone(), v2: norm(&r[2]), known, named }
       } else if norm(&r[0]) == "panic" {
         // which part panicked: reading the literal, or printing the value?
         let v = norm(&feel(&format!("{}(\"{}\")", f, c.text)));
         if v == "panic" {
-          Obs { v, s: "null".into(), v2: "null".into(), known }
+          Obs { v, s: "null".into(), v2: "null".into(), known, named }
         } else {
-          Obs { v, s: "panic".into(), v2: "null".into(), known }
+          Obs { v, s: "panic".into(), v2: "null".into(), known, named }
         }
       } else {
-        Obs { v: norm(&r[0]), s: "null".into(), v2: "null".into(), known }
+        Obs { v: norm(&r[0]), s: "null".into(), v2: "null".into(), known, named }
       }
     };
     obs.push(o);
@@ -1191,6 +1600,14 @@ fn run_inner(cfg: &Cfg) -> Report {
     if let Some(a) = api {
       let a = a.unwrap_or_else(|_| "panic".into());
       rep.hit("route:xsd-constructor");
+      // the typed input of a decision model reads the same lexical forms: judged against the written grammar
+      if c.sig != "zone-database-skew" {
+        let want_x = spec_lit(if c.kind == "dt" { "xdt" } else { c.kind }, &c.text, obs[i].known);
+        if a != want_x && !(a == "panic" && c.text.contains('@') && c.kind == "time") {
+          let sig = grammar_signature(c.kind, &c.text, &a, &want_x, " (xsd input of a decision model)");
+          rep.disagree(Kind::ImplVsSpec, "grammar", &sig, &format!("Value::try_from_xsd_{}(\"{}\")", match c.kind { "date" => "date", "time" => "time", "dt" => "date_time", _ => "duration" }, c.text), &a, &want_x);
+        }
+      }
       if c.kind == "dt" {
         xdt_idx.push((i, a));
         xdt_reqs.push(format!("(c14 lit xdt {} {})", obs[i].known, Sexp::str(&c.text)));
@@ -1276,6 +1693,35 @@ fn run_inner(cfg: &Cfg) -> Report {
           c.sig
         };
         rep.disagree(Kind::ImplVsSpec, "literal_exact", sig, &input, &o.v, want);
+      }
+    }
+    // 2b. against the written grammar: every text without a written expectation (the corruptions) denotes what
+    // the grammar says - nothing (null) unless the corrupted text is a literal again; the generator's own
+    // expectations are checked against the grammar as well (a self-check of the two oracles)
+    {
+      let spec = spec_lit(c.kind, &c.text, o.known);
+      match &c.expected {
+        Some(want) => {
+          if &spec != want && c.sig != "zone-database-skew" {
+            rep.disagree(Kind::ImplVsModel, "grammar", "harness: the written grammar and the generator's expectation differ", &input, &spec, want);
+          }
+        }
+        None => {
+          if o.v != spec {
+            let sig = grammar_signature(c.kind, &c.text, &o.v, &spec, "");
+            rep.disagree(Kind::ImplVsSpec, "grammar", &sig, &input, &o.v, &spec);
+          }
+        }
+      }
+      if m != &spec && !(c.text.contains(".S") && c.kind != "date") {
+        rep.disagree(Kind::ImplVsModel, "grammar", "the Lean model of the parsers differs from the written grammar", &input, m, &spec);
+      }
+      if let Some(nv) = &o.named {
+        rep.hit("route:named-parameter");
+        if nv != &spec {
+          let sig = grammar_signature(c.kind, &c.text, nv, &spec, " (named parameter from:)");
+          rep.disagree(Kind::ImplVsSpec, "grammar", &sig, &format!("{}(from: \"{}\")", fn_of(c.kind), c.text), nv, &spec);
+        }
       }
     }
     // 3. printing and reading back
@@ -1477,6 +1923,33 @@ fn run_inner(cfg: &Cfg) -> Report {
   rep.exhaustive = true;
   rep.model_requests = model.requests;
   rep
+}
+
+/// Signature of a disagreement between an acceptor and the written grammar (stable: kind of literal, which
+/// way, which acceptor).
+fn grammar_signature(kind: &str, text: &str, got: &str, want: &str, route: &str) -> String {
+  let f = match kind {
+    "date" => "date()",
+    "time" => "time()",
+    "dt" => "date and time()",
+    "dur" => "duration()",
+    _ => "@\"…\"",
+  };
+  if want == "null" && got != "null" && got != "panic" && got != "parse-error" {
+    if (kind == "dur" || kind == "at") && text.contains(".S") {
+      return "C14 malformed duration text is accepted: empty fraction".to_string();
+    }
+    if !text.is_ascii() {
+      return format!("C14 text with a character outside ASCII (a digit, sign or letter of another script) is accepted as a literal{}", route);
+    }
+    format!("C14 grammar: text that is not a literal is accepted by {}{}", f, route)
+  } else if got == "panic" {
+    format!("C14 grammar: reading a text panics in {}{}", f, route)
+  } else if got == "null" || got == "parse-error" {
+    format!("C14 grammar: a literal of the written grammar is null in {}{}", f, route)
+  } else {
+    format!("C14 grammar: a literal does not denote the written value in {}{}", f, route)
+  }
 }
 
 /// The text has a fraction of at least sixteen leading nines (its f64 value is 1.0).
